@@ -489,3 +489,144 @@ ALL = [C16_FILTER, C17_SAMPLE, C07_LOWER_TRI,
        C06_SELECT, C06_SCORE_CHUNK, C16_SELECT, C06_ADD_SCORE, C06_COMBINE, C06_MIN_SCORE, C06_CONCAT,
        C11_GENERATE_PLATES, C11_SMOOTH_PLATES, C13_MERGEMIN_SAMPLE_ID, C13_MERGEMIN, C11_BALANCED_HOLDOUT,
        C13_MERGETB_SAMPLE_ID, C13_MERGETB]
+
+# ---- C14: data.py ScreenSubset / Plate and the view-producing methods of ScreenBase / Screen (vocabulary: Model/Views.v) ----
+# A Screen object is `pyscreen` = (identity tag, contents); a ScreenSubset / Plate object is a `view` = its two instance
+# attributes (fields below).  Array types: `list bool` = an array of dtype bool, `anyarray` = an array of unknown dtype
+# (dtype is bool, truth values), `own_bools` = a bool array the function itself created (`.copy()`), the only type the
+# in-place store `a[idx] = vals` is declared for (so dropping the copy is refused), `list T` / `(arr2 T)` = 1-d / 2-d per-row arrays.
+_C14 = dict(file="src/batchie/data.py", out="SrcViews.v", imports="Model.Encode Model.Screen Model.Views", overload=True)
+_VIEW_FIELDS = {"screen": ("view", "pyscreen", "view_screen {obj}", "set_view_screen {obj} {val}"),
+                "selection_vector": ("view", "list bool", "v_sel {obj}", "set_view_sel {obj} {val}")}
+_BOOL_COERCE = [("list bool", "anyarray", "(true, {x})"), ("own_bools", "list bool", "{x}"), ("own_bools", "anyarray", "(true, {x})")]
+_IS_BOOL = ("np.issubdtype(__a.dtype, bool)", "fst {a}", "bool", {"a": "anyarray"})
+_SAME_LEN_ARG = ("selection_vector.size", "Z.of_nat (length (snd selection_vector'))", "Z")      # 1-d: size = number of elements
+_IS_NOT = ("__a is not __b", "negb (same_object {a} {b})", "bool", {"a": "pyscreen", "b": "pyscreen"})    # identity of Screen objects
+_NOT = ("~__a", "map negb {a}", "list bool", {"a": "list bool"})
+_OR = ("__a | __b", "bor_vec {a} {b}", "list bool", {"a": "list bool", "b": "list bool"})
+# ScreenSubset(s, v) / Plate(s, v): a new instance initialised by the translated ScreenSubset.__init__ (Plate defines none: `inherits`)
+_new_view = lambda cls: ("%s(__s, __v)" % cls, "!src_view_init blank_view {s} {v}", "view", {"s": "pyscreen", "v": "anyarray"})
+_PLATE_IS_SUBSET = [("Plate", "ScreenSubset", ["__init__"])]
+_T1 = ("list Z", "list bool", "list name", "list (list Z)")
+_T2 = ("(arr2 name)", "(arr2 Z)")
+_MASKED = [("__a[__m]", "select {m} {a}", t, {"a": t, "m": "list bool"}) for t in _T1] \
+    + [("__a[__m]", "select2 {m} {a}", t, {"a": t, "m": "list bool"}) for t in _T2]                     # a[mask]: the rows where mask is True
+_COPIES = [("__a.copy()", "{a}", t, {"a": t}) for t in _T1 + _T2]                                       # a copy has the same value
+_PS = {"s": "pyscreen"}
+_SCREEN_ATTRS = [      # the per-row arrays of a Screen object (its properties return the stored arrays)
+    ("__s.plate_ids", "s_pids (snd {s})", "list Z", _PS), ("__s.sample_ids", "s_sids (snd {s})", "list Z", _PS),
+    ("__s.treatment_ids", "s_tids (snd {s})", "list (list Z)", _PS),
+    ("__s.sample_names", "map r_sample (s_rows (snd {s}))", "list name", _PS),
+    ("__s.plate_names", "map r_plate (s_rows (snd {s}))", "list name", _PS),
+    ("__s.treatment_names", "screen_treatment_names (snd {s})", "(arr2 name)", _PS),
+    ("__s.treatment_doses", "screen_treatment_doses (snd {s})", "(arr2 Z)", _PS),
+    ("__s.observations", "map r_obs (s_rows (snd {s}))", "list Z", _PS),
+    ("__s.observation_mask", "screen_mask (snd {s})", "list bool", _PS),
+    ("__s.control_treatment_name", "s_ctrl (snd {s})", "name", _PS),
+    ("__s.treatment_mapping", "s_tmap (snd {s})", "tmapping", _PS), ("__s.sample_mapping", "s_smap (snd {s})", "nmapping", _PS),
+    ("__s.plate_mapping", "s_pmap (snd {s})", "nmapping", _PS),
+]
+_SHAPE0 = ("__a.shape[0]", "Z.of_nat (length {a})", "Z", {"a": "list (list Z)"})      # rows of a 2-d id array
+
+C14_SCREEN_SIZE = dict(          # ScreenBase.size on a Screen object
+    _C14, cls="ScreenBase", func="size", name="src_screen_size", pyparams=["self"],
+    params=[("self", "pyscreen")], returns="Z", vars={}, prims=_SCREEN_ATTRS + [_SHAPE0])
+C14_VIEW_INIT = dict(
+    _C14, cls="ScreenSubset", func="__init__", name="src_view_init", pyparams=["self", "screen", "selection_vector"],
+    params=[("self", "view"), ("screen", "pyscreen"), ("selection_vector", "anyarray")], returns="view", vars={},
+    # storing an array as the selection vector stores its values (it is of dtype bool where the store stands)
+    fields={"screen": _VIEW_FIELDS["screen"],
+            "selection_vector": ("view", "anyarray", "(true, v_sel {obj})", "set_view_sel {obj} (snd {val})")},
+    prims=[_IS_BOOL, ("__a.shape[0]", "Z.of_nat (length (snd {a}))", "Z", {"a": "anyarray"}),
+           ("screen.size", "!src_screen_size screen'", "Z")],
+    raises=[("selection_vector must be bool", 21), ("selection_vector must have same number of rows", 22)],
+    implicit_return="{self}")
+
+
+def _view_attr(func, ret):
+    return dict(_C14, cls="ScreenSubset", func=func, name="src_view_" + func, pyparams=["self"], params=[("self", "view")],
+                returns=ret, vars={}, fields=_VIEW_FIELDS, prims=_SCREEN_ATTRS + _MASKED)
+
+
+C14_VIEW_ATTRS = [_view_attr(f, t) for f, t in [
+    ("plate_ids", "list Z"), ("sample_ids", "list Z"), ("treatment_ids", "list (list Z)"), ("sample_names", "list name"),
+    ("treatment_names", "(arr2 name)"), ("treatment_doses", "(arr2 Z)"), ("observations", "list Z"), ("observation_mask", "list bool"),
+    ("control_treatment_name", "name"), ("treatment_mapping", "tmapping"), ("sample_mapping", "nmapping"), ("plate_mapping", "nmapping")]]
+C14_VIEW_STE = dict(
+    _C14, cls="ScreenSubset", func="single_treatment_effects", name="src_view_single_treatment_effects", pyparams=["self"],
+    # ste = the value of the parent's computed property (None when it cannot be built); E = its row type
+    params=[("E", "Type"), ("self", "view"), ("ste", "opt list E")], returns="opt list E", vars={}, fields=_VIEW_FIELDS,
+    prims=[("__s.single_treatment_effects", "ste", "opt list E", _PS),
+           ("__a[__m]", "select {m} {a}", "list E", {"a": "list E", "m": "list bool"})])
+C14_VIEW_SIZE = dict(            # ScreenBase.size on a ScreenSubset object
+    _C14, cls="ScreenBase", func="size", name="src_view_size", pyparams=["self"],
+    params=[("self", "view")], returns="Z", vars={},
+    prims=[("self.treatment_ids", "!src_view_treatment_ids self'", "list (list Z)"), _SHAPE0])
+C14_VIEW_SUBSET = dict(
+    _C14, cls="ScreenSubset", func="subset", name="src_view_subset", pyparams=["self", "selection_vector"],
+    params=[("self", "view"), ("selection_vector", "anyarray")], returns="view",
+    vars={"original_selection_vector": "own_bools", "indexes": "list nat"}, fields=_VIEW_FIELDS, coerce=_BOOL_COERCE,
+    prims=[_IS_BOOL, _SAME_LEN_ARG, ("self.size", "!src_view_size self'", "Z"),
+           ("__a.copy()", "{a}", "own_bools", {"a": "list bool"}),
+           ("np.where(__a)[0]", "np_where {a}", "list nat", {"a": "list bool"}),
+           _new_view("ScreenSubset")],
+    # a[idx] = vals on an array the function owns: one write per index, in order
+    stmt_prims=[("original_selection_vector[__i] = __v", "original_selection_vector",
+                 "scatter original_selection_vector' {i} (snd {v})", "own_bools", {"i": "list nat", "v": "anyarray"})],
+    raises=[("selection_vector must be bool", 21), ("selection_vector must have same length as dataset", 22)])
+C14_VIEW_INVERT = dict(
+    _C14, cls="ScreenSubset", func="invert", name="src_view_invert", pyparams=["self"], params=[("self", "view")], returns="view",
+    vars={}, fields=_VIEW_FIELDS, coerce=_BOOL_COERCE, inherits=_PLATE_IS_SUBSET, prims=[_NOT, _new_view("Plate")])
+C14_VIEW_COMBINE = dict(
+    _C14, cls="ScreenSubset", func="combine", name="src_view_combine", pyparams=["self", "other"],
+    params=[("self", "view"), ("other", "view")], returns="view", vars={}, fields=_VIEW_FIELDS, coerce=_BOOL_COERCE,
+    inherits=_PLATE_IS_SUBSET, prims=[_IS_NOT, _OR, _new_view("Plate")],
+    raises=[("Cannot combine two subsets of different datasets", 23)])
+C14_VIEW_CONCAT = dict(
+    _C14, cls="ScreenSubset", func="concat", name="src_view_concat", pyparams=["cls", "screen_subsets"], unused_params=["cls"],
+    params=[("screen_subsets", "list view")], returns="view",
+    vars={"selection_vector": "opt list bool", "screen_subset": "view"}, fields=_VIEW_FIELDS, inherits=_PLATE_IS_SUBSET,
+    prims=[("len(__l)", "Z.of_nat (length {l})", "Z", {"l": "list view"}),
+           ("__l[0]", "!list_get {l} (0)", "view", {"l": "list view"}), _IS_NOT, _OR,
+           # the accumulated vector is an `|` of bool arrays (or one of them): dtype bool
+           ("Plate(__s, __v)", "!src_view_init blank_view {s} (true, {v})", "view", {"s": "pyscreen", "v": "list bool"})],
+    raises=[("Cannot concat empty list", 24), ("Cannot concat subsets of different screens", 23)])
+C14_TO_SCREEN = dict(
+    _C14, cls="ScreenSubset", func="to_screen", name="src_to_screen", pyparams=["self"], params=[("self", "view")],
+    returns="screen", vars={}, fields=_VIEW_FIELDS,
+    prims=_SCREEN_ATTRS + _MASKED + _COPIES + [
+        # the constructor call with exactly these keyword arguments (any other set of keywords does not match)
+        ("Screen(treatment_names=__tn, treatment_doses=__td, observations=__o, observation_mask=__m, sample_names=__sn, "
+         "plate_names=__pn, control_treatment_name=__c)", "!screen_of_arrays {tn} {td} {o} {m} {sn} {pn} {c}", "screen",
+         {"tn": "(arr2 name)", "td": "(arr2 Z)", "o": "list Z", "m": "list bool", "sn": "list name", "pn": "list name", "c": "name"})])
+_SELF_MASK = ("self.observation_mask", "screen_mask (snd self')", "list bool")       # Screen.observation_mask: a bool array
+_ANY = ("np.any(__a)", "existsb (fun b => b) {a}", "bool", {"a": "list bool"})
+C14_SCREEN_SUBSET = dict(
+    _C14, cls="Screen", func="subset", name="src_screen_subset", pyparams=["self", "selection_vector"],
+    params=[("self", "pyscreen"), ("selection_vector", "anyarray")], returns="view", vars={}, coerce=_BOOL_COERCE,
+    prims=[_IS_BOOL, _SAME_LEN_ARG, ("self.size", "!src_screen_size self'", "Z"), _new_view("ScreenSubset")],
+    raises=[("selection_vector must be bool", 21), ("selection_vector must have same length as dataset", 22)])
+_SELF_SUBSET = ("self.subset(__m)", "!src_screen_subset self' {m}", "view", {"m": "anyarray"})
+C14_SUBSET_UNOBSERVED = dict(
+    _C14, cls="Screen", func="subset_unobserved", name="src_subset_unobserved", pyparams=["self"], params=[("self", "pyscreen")],
+    returns="opt view", vars={}, coerce=_BOOL_COERCE, prims=[_SELF_MASK, _NOT, _ANY, _SELF_SUBSET],
+    implicit_return="None")        # falling off the end of the function returns None
+C14_SUBSET_OBSERVED = dict(C14_SUBSET_UNOBSERVED, func="subset_observed", name="src_subset_observed")
+C14_UNIQUE_PLATE_IDS = dict(
+    _C14, cls="ScreenBase", func="unique_plate_ids", name="src_unique_plate_ids", pyparams=["self"], params=[("self", "pyscreen")],
+    returns="list Z", vars={},
+    prims=_SCREEN_ATTRS + [("np.unique(__a)", "sort_uniq Z.compare {a}", "list Z", {"a": "list Z"})])     # sorted distinct values
+C14_GET_PLATE = dict(
+    _C14, cls="Screen", func="get_plate", name="src_get_plate", pyparams=["self", "plate_id"],
+    params=[("self", "pyscreen"), ("plate_id", "Z")], returns="view", vars={}, coerce=_BOOL_COERCE, inherits=_PLATE_IS_SUBSET,
+    prims=_SCREEN_ATTRS + [("__a == __v", "map (fun x => x =? {v}) {a}", "list bool", {"a": "list Z", "v": "Z"}), _new_view("Plate")])
+C14_PLATES = dict(
+    _C14, cls="Screen", func="plates", name="src_plates", pyparams=["self"], params=[("self", "pyscreen")],
+    returns="list view", vars={},
+    prims=[("self.unique_plate_ids", "!src_unique_plate_ids self'", "list Z"),
+           ("self.get_plate(__x)", "!src_get_plate self' {x}", "view", {"x": "Z"})])
+
+C14_ALL = [C14_SCREEN_SIZE, C14_VIEW_INIT] + C14_VIEW_ATTRS + [
+    C14_VIEW_STE, C14_VIEW_SIZE, C14_VIEW_SUBSET, C14_VIEW_INVERT, C14_VIEW_COMBINE, C14_VIEW_CONCAT, C14_TO_SCREEN,
+    C14_SCREEN_SUBSET, C14_SUBSET_UNOBSERVED, C14_SUBSET_OBSERVED, C14_UNIQUE_PLATE_IDS, C14_GET_PLATE, C14_PLATES]
+ALL += C14_ALL
